@@ -20,8 +20,9 @@ type WHistory struct {
 		Policy string `json:"policy"`
 	} `json:"mints"`
 	Wallets []struct {
-		Name    string `json:"name"`
-		Default string `json:"default"`
+		Name    string   `json:"name"`
+		Default string   `json:"default"`
+		Trust   []string `json:"trust"` // other mints in the wallet's list; absent: all
 	} `json:"wallets"`
 	Ops []wworld.Op `json:"ops"`
 }
@@ -43,7 +44,7 @@ func runWHistory(h WHistory, scratch string, seed int64) ([]wworld.Event, []map[
 		}
 	}
 	for _, w := range h.Wallets {
-		if err := ww.AddWallet(w.Name, w.Default); err != nil {
+		if err := ww.AddWallet(w.Name, w.Default, w.Trust); err != nil {
 			return nil, nil, err
 		}
 	}
